@@ -12,6 +12,33 @@ PROFILE = dict(blob=3, chunked=2, mount=1.5, image=5, index=3, artifact=1, mread
                mdel=1.5, bdel=0.7, sess=0.3, bad=1.0)
 
 
+def many_referrers(w, rng, conf, i):
+    """a tagged image with so many artifacts pushed by digest that the referrers response the registry keeps for it is larger
+    than the manifest size limit (which binds what clients push, not what the registry maintains); returns the reads of them"""
+    repo = w.repo()
+    cfg = b"{}"
+    w.contents.add(cfg)
+    w.add(upload_post(repo, digest=dg("sha256", cfg), body=cfg))
+    if cfg not in w.blobs[repo]:
+        w.blobs[repo].append(cfg)
+    base = image_manifest(desc(MT_CFG, cfg), [], annotations={"m": str(i)})
+    w.contents.add(base)
+    w.add(manifest_put(repo, "many", base, ctype=MT_OCI_M))
+    w.manifests[repo].append((base, MT_OCI_M))
+    w.tags[repo].add("many")
+    sd = {"mediaType": MT_OCI_M, "digest": dg("sha256", base), "size": len(base)}
+    reads = []
+    for j in range(min(26, conf["mlimit"] // 170 + 2)):
+        a = image_manifest(desc(MT_EMPTY, cfg), [], subject=sd, artifact_type="a/b", annotations={"j": str(j)})
+        w.contents.add(a)
+        w.add(manifest_put(repo, dg("sha256", a), a, ctype=MT_OCI_M))
+        reads.append(manifest_get(repo, dg("sha256", a), head=j % 2 == 0))
+    w.add(referrers(repo, dg("sha256", base)))
+    reads.append(referrers(repo, dg("sha256", base)))
+    reads.append(manifest_get(repo, "many"))
+    return reads
+
+
 def make_cases(ctx, first):
     n, steps = (400, 45) if ctx.tier == "quick" else (12000, 60)
     # Close() of the directory store collects every open repository: with the default policy that removes
@@ -29,7 +56,10 @@ def make_cases(ctx, first):
             w.probe()
         w.run(len(w.steps) + steps // 2)
         w.probe()
-        if ctx.rng.random() < 0.25:
+        many = None
+        if i % 16 in (2, 3, 7, 12):
+            many = many_referrers(w, ctx.rng, conf, i)
+        if many or ctx.rng.random() < 0.25:
             # everything grows old and a collection runs under the configured (default) policy: untagged manifests stay, and so
             # does every config, layer and child a stored manifest references - whatever the media type it is listed under
             import gcgen
@@ -37,6 +67,33 @@ def make_cases(ctx, first):
                 w.add(gcgen.age_step(r_, "", 7200))
                 w.add(gcgen.gc_step(r_))
             w.probe()
+            if many:
+                for x_ in many:
+                    w.add(dict(x_))
+        if i % 16 in (5, 9, 14):
+            # content nothing references, grown old, pushed again through an upload session (or in one request) and acknowledged:
+            # uploaded a moment ago when the next collection runs
+            import gcgen
+            repo = w.repo()
+            data = b"old-unreferenced-%d" % i
+            d_ = dg("sha256", data)
+            w.contents.add(data)
+            w.add(upload_post(repo, digest=d_, body=data))
+            if data not in w.blobs[repo]:
+                w.blobs[repo].append(data)
+            w.add(gcgen.age_step(repo, "", 7200))
+            if i % 16 == 14:
+                w.add(upload_post(repo, digest=d_, body=data))
+            else:
+                ks_ = w.add(upload_post(repo))
+                if i % 16 == 9:
+                    w.add(upload_patch(repo, "$SID%d$" % ks_, None, state_token(0), data))
+                    w.add(upload_put(repo, "$SID%d$" % ks_, None, d_, state_token(len(data)), b""))
+                else:
+                    w.add(upload_put(repo, "$SID%d$" % ks_, None, d_, state_token(0), data))
+            w.add(gcgen.gc_step(repo))
+            w.add(blob_get(repo, d_))
+            w.add(blob_get(repo, d_, head=True))
         if conf["store"] == "dir" and i % 8 == 1:
             # a repository that holds a nested one, between the blob uploads and the manifest push of its first image, when a
             # collection runs (removal of emptied repositories is on by default): the blobs were acknowledged a moment ago
